@@ -247,7 +247,7 @@ fn random_contour(rng: &mut Rng) -> String {
 
 pub fn glif_document(fmt: u32, types: &str, coords: &[(i64, i64)], names: &str) -> String {
     let mut s = format!("<?xml version=\"1.0\" encoding=\"UTF-8\"?>\n<glyph name=\"a\" format=\"{}\">\n<outline>\n<contour>\n", fmt);
-    for (i, ((ch, (x, y)), n)) in types.chars().zip(coords).zip(names.chars()).enumerate() {
+    for (i, ((ch, (x, y)), n)) in types.chars().zip(coords).zip(names.chars().chain(std::iter::repeat('0'))).enumerate() {
         s.push_str(&format!("<point x=\"{}\" y=\"{}\" type=\"{}\"", x, y, typ_name(ch)));
         if ch.is_ascii_uppercase() {
             s.push_str(" smooth=\"yes\"");
